@@ -5,6 +5,7 @@ from ..core import main
 
 SITE_D = "ConstraintKMeans strategy=distance"
 SITE_G = "ConstraintKMeans strategy=gain"
+SITE_W = "ConstraintKMeans strategy=weights"
 
 
 class Sink:
@@ -136,7 +137,7 @@ def s2c_distance(ctx, count):
 
 def record_fit(ctx, rng, it, km, X, n, k, d, strategy, kmeans0, seed, max_iter, balanced, dtr, gtr, ftr):
     """fit + predict one model under the hooks; append association / fit / predict traces."""
-    site = SITE_D if strategy == "distance" else SITE_G
+    site = SITE_D if strategy == "distance" else (SITE_G if strategy == "gain" else SITE_W)
     sig = "fit kmeans0=%s n%%k=%s" % (kmeans0, "0" if n % k == 0 else ("1" if n % k == 1 else ">=2"))
     ctx.case((n, k, d, strategy, kmeans0, seed, max_iter, X.tobytes()), nontrivial=n > k)
     numpy.random.seed(seed)
@@ -160,7 +161,7 @@ def record_fit(ctx, rng, it, km, X, n, k, d, strategy, kmeans0, seed, max_iter, 
     if raised is not None:
         return
     lab = [int(v) for v in km.labels_]
-    ftr.append(dict(id="fit%s" % it, kind="fit", n=n, k=k, labels=lab, balanced=False, dist=[],
+    ftr.append(dict(id="fit%s" % it, kind="fit", n=n, k=k, labels=lab, balanced=False, dist=[], sized=strategy != "weights",
                     finite=bool(numpy.all(numpy.isfinite(km.cluster_centers_))),
                     n_iter=int(km.n_iter_), max_iter=int(max_iter), site=site, sig=sig))
     # predictions: a batch of any size, then (balanced models) a batch smaller than k with a repeated point
@@ -202,7 +203,7 @@ def record_predict(ctx, it, km, Xq, k, balanced, site, dtr, gtr, ftr):
     if not balanced:
         D = ((Xq[:, None, :] - km.cluster_centers_[None, :, :]) ** 2).sum(axis=2)
         dist = [[int(round(v * 2 ** 20)) for v in row] for row in D]
-    ftr.append(dict(id="pred%s" % it, kind="predict", n=m, k=k, labels=[int(v) for v in pl], balanced=balanced,
+    ftr.append(dict(id="pred%s" % it, kind="predict", n=m, k=k, labels=[int(v) for v in pl], balanced=balanced, sized=True,
                     dist=dist, finite=True, n_iter=0, max_iter=0, site=site, sig=psig))
 
 
@@ -458,11 +459,12 @@ def run(ctx):
         if rng.random() < 0.15:
             n = k
         d = rng.randint(1, 3)
-        strategy = rng.choice(["distance", "gain"])
+        # 'weights' promises no sizes: only valid labels, finite centres, the iteration bound and nearest-centre predictions
+        strategy = rng.choice(["distance", "gain", "distance", "gain", "weights"])
         kmeans0 = rng.random() < 0.5
         seed = rng.randint(0, 10 ** 6)
         max_iter = rng.choice([2, 5, 8, 12])
-        balanced = rng.random() < 0.5
+        balanced = rng.random() < 0.5 and strategy != "weights"
         km, X = run_model(rng, n, k, d, strategy, kmeans0, seed, max_iter, balanced)
         record_fit(ctx, rng, it, km, X, n, k, d, strategy, kmeans0, seed, max_iter, balanced, dtr, gtr, ftr)
     for mod, cfgf, trs in (("QuotaTrace", "QuotaTrace.cfg", dtr), ("QuotaGainTrace", "QuotaGainTrace.cfg", gtr),
